@@ -45,6 +45,19 @@ CLAIMED = {
         "controller simulator, get_faultlog's send loop (only its message processing is modelled). FAULTLOG_MAX_LOG_IDX is regenerated.",
         "6 (C19)",
     ),
+    "C14": (
+        "Coq proof (threshold theorems over the regenerated HAS_EXPIRED/grace constants with lia/nia; latch monotonicity and latest-wins by induction over arbitrary read/message sequences) + correspondence on real Message/_MessageDB objects + replay-gateway oracle",
+        "12 theorems in coq/props/C14.v about coq/model/M_Store.v (= Message._expired with its cached fraction, _MessageDB._handle_msg, "
+        "_msg_value with the deferred delete): never expired before L, always after 2L+grace (for whatever HAS_EXPIRED/grace the source "
+        "says now, provided 1 <= HAS_EXPIRED <= 2 -- itself a checked obligation), expiry never un-happens in any evaluation sequence "
+        "even with a backwards clock, evaluation is total (zero countdown repaired), the stored message per code is the last relevant "
+        "one under arbitrary interleaving, expired => unknown after the deferred delete (_partial; the first read is refuted, KNOWN). "
+        "Tie: real Message objects of 30 kinds under a controlled clock and real _handle_msg on random sequences compared with the "
+        "model; end-to-end oracle on replay gateways (zones x array/single forms x clock gaps).",
+        "Trusted: Coq kernel, harness; float division age/lifespan >= 2.0 argued exact (lifespans < 2^52 us) not proved. Modelled not "
+        "verified: the lifespan table (taken from the implementation as input), zone routing of array payloads (exercised by the oracle only).",
+        "6 (C14)",
+    ),
 }
 
 NOT_YET = "not claimed yet: the Coq model and correspondence harness for this property are not built in this revision (planned in DESIGN.md section 6)"
